@@ -52,9 +52,15 @@ def write_protocol(ctx, prog, rule):
     if ok:
         bi, si, kind, payload = sl[0]
         t = strip(R.rvalue(payload))
-        desc = tree_str(t)
-        ok = t[0] == "call" and t[1].endswith("io::copy") and bool(second) and (f.dominates(bi, second[0]))
-    ctx.ob(rule, "header-length/%s" % short(f.path), ok, "section_header.section_length <- %s (must be the byte count returned by io::copy, before the final header write)" % desc)
+        desc = tree_str(strip_deep(t))
+        ok = False
+        if t[0] == "call" and t[1].endswith("next_multiple_of") and const_val(t[2][1]) == 4:
+            s = strip_casts(t[2][0])
+            if s[0] == "binop" and s[1] == "Add":
+                parts = [strip(s[2]), strip(s[3])]
+                ok = any(const_val(x) == 16 for x in parts) and any(x[0] == "call" and x[1].endswith("io::copy") for x in parts)
+        ok = ok and bool(second) and f.dominates(bi, second[0])
+    ctx.ob(rule, "header-length/%s" % short(f.path), ok, "section_header.section_length <- %s (must be header size 16 + the byte count returned by io::copy, rounded up to a multiple of 4, before the final header write)" % desc)
     # placeholder length 0
     okp = False
     for bi in f.cfg():
